@@ -7,7 +7,7 @@ let () =
   List.iter2 (fun case impl_line ->
     let it = split_ws impl_line in
     match split_ws case with
-    | ["ctor"; n] ->
+    | "ctor" :: n :: _ ->
       let name = bytes_of_tok n in
       let m = (match List.find_opt (fun (a, _) -> a = name) ctor_table with
           | Some (_, c) -> "K " ^ string_of_int (int_of_n c) ^ " 1" | None -> "unknown") in
